@@ -161,3 +161,16 @@ reg("C02", "E1-product",
     "directories never appear through the object-level path.",
     "md5 only (legacy algorithm merges CRLF/LF twins by design). No successful reflink on this kernel.",
     "DESIGN.md §4 C02")
+
+reg("C13", "E2-history-bfs",
+    "exhaustive enumeration of mutation/query histories on real files and a real State database, every answer vs cache-less recomputation",
+    "Every history of length 3 (thorough 4) over 24 operations on 2 files (write same-size / other-size content, "
+    "atomic replace, touch, delete; state.get with and without caller info, get_many, hash_file, state.save, dry "
+    "staging build, index build+md5, index update from the previous index) from a cold and a warm initial state "
+    "under a strictly increasing 1-microsecond logical clock: ~2.8*10^4 (quick) histories; every hash answered "
+    "equals hashlib on the current bytes, single == batch. Batch lookups of {1,2,998,999,1000,1001,1999} paths in "
+    "both orders with entries invalidated at the SQL chunk edges; forged entries (other algorithm, newer format "
+    "version, non-local file system, corrupt row) are never hits.",
+    "Histories never restore an old (inode, mtime, size) with new content (excluded by the property). A miss is "
+    "always acceptable.",
+    "DESIGN.md §4 C13")
